@@ -287,7 +287,8 @@ func runC38(c *an.Ctx) {
 							sx, isSx := ss.Val.(*ssa.Extract)
 							if isSx && sx.Tuple == ex.Tuple && sx.Index == 0 {
 								n++
-							} else {
+							} else if _, isConst := ss.Val.(*ssa.Const); !isConst {
+								// (`return "", err` with the sanitizer's error is the plain error path)
 								ok = false
 							}
 						}
